@@ -162,6 +162,10 @@ var mVariants = []mVariant{
 	// the same options given at the interface level only (they must resolve through the hierarchy)
 	{"testify-unroll-true@iface", "testify", map[string]bool{"unroll-variadic": true}, "interface"},
 	{"matryer-stub-resets@iface", "matryer", map[string]bool{"stub-impl": true, "with-resets": true}, "interface"},
+	// the interface level says the opposite of the root level: the narrower level wins
+	{"testify-unroll-false-over-true", "testify", map[string]bool{"unroll-variadic": false}, "override"},
+	{"testify-unroll-true-over-false", "testify", map[string]bool{"unroll-variadic": true}, "override"},
+	{"matryer-nostub-resets-over-opposite", "matryer", map[string]bool{"stub-impl": false, "with-resets": true}, "override"},
 }
 
 // mMate is a second interface generated into the same file as the unit's first one, with
@@ -260,9 +264,17 @@ func mPrepare(c *core.Ctx) {
 			for _, k := range core.SortedKeys(u.Variant.Opts) {
 				td.Set(k, u.Variant.Opts[k])
 			}
-			if u.Variant.Level == "interface" {
+			switch u.Variant.Level {
+			case "interface":
 				ic.Sub("config").Set("template-data", td)
-			} else {
+			case "override":
+				ic.Sub("config").Set("template-data", td)
+				neg := world.NewY()
+				for _, k := range core.SortedKeys(u.Variant.Opts) {
+					neg.Set(k, !u.Variant.Opts[k])
+				}
+				cfg.Set("template-data", neg)
+			default:
 				cfg.Set("template-data", td)
 			}
 		}
